@@ -66,6 +66,9 @@ def parse(out, names):
         m2 = re.match(r"^\s*\*\* (\d+) of (\d+) failed", line)
         if m2:
             r["checks"] = (int(m2.group(1)), int(m2.group(2)))
+    for n, r in res.items():
+        if r["status"] == "failed" and not r["failed_checks"]:
+            r["status"] = "inconclusive"      # CBMC died / unsatisfied cover without a failed check: never a verdict
     return res
 
 
@@ -83,12 +86,12 @@ def main():
         if not os.path.exists(lock):
             import shutil
             shutil.copy(os.path.join(REPO, "Cargo.lock"), lock)
-    jobs = int(os.environ.get("VERIF_KANI_JOBS", "6"))
-    per = 420 if t == "quick" else 900
+    jobs = int(os.environ.get("VERIF_KANI_JOBS", "5"))
+    per = int(os.environ.get("VERIF_KANI_CAP", "420" if t == "quick" else "900"))
     cap = 3 * 3600 if t == "thorough" else 2400
     t0 = time.time()
-    cmd = ["bash", "-c", "ulimit -v 12000000; exec cargo kani --target-dir %s -j %d --output-format terse -Z unstable-options --harness-timeout %d" % (
-        os.path.join(VERIF, "build", "kani-model"), jobs, per)]
+    cmd = ["bash", "-c", "ulimit -v %d; exec cargo kani --target-dir %s -j %d --output-format terse -Z unstable-options --harness-timeout %d" % (
+        int(os.environ.get("VERIF_KANI_MEM_KB", "14000000")), os.path.join(VERIF, "build", "kani-model"), jobs, per)]
     try:
         r = sh(cmd, HERE, timeout=cap)
         out = r.stdout
@@ -171,12 +174,13 @@ def main():
     else:
         chk.cov["rule"] = ("one harness per concrete shape (3-node chain, siblings and an index-reuse layout for K=2%s), traversal (DfsPre, DfsEdge, "
                            "Bfs) and step j in 1..%d: start node symbolic over all nodes, a symbolic skip_subtree decision after every earlier "
-                           "item; non-trivial = harness verified") % ("; all shapes <= 3 nodes K=2 and six K=3 shapes" if t == "thorough" else "", 3 if t == "thorough" else 2)
+                           "item; non-trivial = harness verified") % ("; all shapes <= 3 nodes K=2 and six K=3 shapes" if t == "thorough" else "", 2)
         chk.cov["explanation"] = ("Kani/CBMC model-checks the compiled traversal code: the j-th returned item (index, depth, remaining-sibling counter "
                                   "/ src, label, dest), None when exhausted, and size_hint before and after every call must equal the constants the "
                                   "generator derived from the shape (children by ascending label, skip omits the descendants of the last item). "
-                                  "OUTSIDE the bound: items beyond the %s leading ones of a traversal (3 calls did not finish in 400 s), the loop-based "
-                                  "metrics num_nodes / depth / path_to_node / index iterators (no verdict in 400 s), depth_stats") % ("three" if t == "thorough" else "two")
+                                  "OUTSIDE the bound: items beyond the two leading ones of a traversal (three calls did not finish in 10 min; "
+                                  "DfsEdge: beyond the first, two calls exhaust 62 GB), the loop-based metrics num_nodes / depth / path_to_node / "
+                                  "index iterators (no verdict in 400 s), depth_stats")
     chk.assumptions += ["slab is replaced by a heap-free model for CBMC; every counterexample is re-run natively on the real slab (dev and release)",
                         "bounded: shapes with <= 3 nodes, unwind 6-8 with unwinding assertions on"]
     return chk.finish()
